@@ -680,3 +680,88 @@ def instances(tier):
     out = _c04_instances_3(tier)
     out.append(Inst(iocb_chain, dict(k=2 if tier == "quick" else 3), budget=80 if tier == "quick" else 600))
     return out
+
+
+# ------------------------------------------------------------------ the application gives up on an IOCB
+@meta(bounds="one IOCB client and one server; two requests queued for the same peer, fates symbolic over {ack, error, no answer}; "
+             "the application gives up on one of them (symbolic which) by IOCB.abort() or by IOCB.set_timeout(1 s), at once or "
+             "after one second (symbolic) - so the block is queued, active, or already complete at that moment; retry count 0",
+      outside="more than two queued requests; giving up on both",
+      stubs=["virtual clock (task._time)", "asyncore.loop -> clock advance", "task._Trigger -> wake flag", "fresh singletons per path"])
+def iocb_abort(d):
+    w = World()
+    lan = nl.FaultLAN([], world=w)
+    cdev = nl.make_device("c", 10, numberOfApduRetries=0, apduTimeout=APDU_TIMEOUT)
+    client = nl.IOStack(cdev, lan)
+    server = nl.AppStack(nl.make_device("s", 20), lan, app_timeout=APP_TIMEOUT)
+    fates = [d.pick(["ack", "error", "silent"], 'fate%d' % i) for i in range(2)]
+    j = d.pick([0, 1], 'given_up')
+    how = d.pick(["abort", "timeout"], 'how')
+    late = d.bool('after_one_second')
+
+    def handler(apdu, orig=server.do_ConfirmedPrivateTransferRequest):
+        server.pt_mode = fates[bytes(apdu.serviceParameters.cast_out(nl.OctetString))[0]]
+        return orig(apdu)
+    server.do_ConfirmedPrivateTransferRequest = handler
+    ios = [client.submit(nl.private_transfer(server.address, bytes([i]))) for i in range(2)]
+    if late:
+        w.run(duration=1.0)
+    if how == "abort":
+        ios[j].abort(RuntimeError("application gave up"))
+    else:
+        ios[j].set_timeout(1.0)
+    w.run()
+    # reference: the queue serves one request at a time; an answered request takes no time, an unanswered one the APDU timeout
+    T = (1.0 if late else 0.0) + (1.0 if how == "timeout" else 0.0)
+    dur = {"ack": 0.0, "error": 0.0, "silent": APDU_TIMEOUT / 1000.0}
+    kind = {"ack": "ack", "error": "error", "silent": "abort"}
+    want = [None, None]
+    sent = [True, True]
+    end0 = dur[fates[0]]
+    if j == 0 and (end0 > T or T == 0.0):
+        want[0] = "given-up"
+        start1 = T
+    else:
+        want[0] = kind[fates[0]]
+        start1 = end0
+    if j == 1 and (start1 > T or T == 0.0):
+        want[1], sent[1] = "given-up", False
+    elif j == 1 and start1 + dur[fates[1]] > T:
+        want[1] = "given-up"
+    else:
+        want[1] = kind[fates[1]]
+    for i, io in enumerate(ios):
+        if len(io.calls) != 1:
+            raise Violation("iocb-completion-count", index=i, n=len(io.calls), fates=fates, given_up=j, how=how, late=late)
+        state, resp, err, t = io.calls[0]
+        if state == IO_COMPLETED:
+            got = nl.outcome_kind(resp)
+        elif isinstance(err, nl.OUTCOME_TYPES):
+            got = nl.outcome_kind(err)
+        else:
+            got = "given-up"
+        if got != want[i]:
+            raise Violation("iocb-outcome", index=i, got=got, want=want[i], fates=fates, given_up=j, how=how, late=late)
+        if t > T + 2 * (APDU_TIMEOUT + APP_TIMEOUT) / 1000.0 + 1:
+            raise Violation("iocb-late", index=i, t=t)
+    seen = sorted(bytes(r.serviceParameters.cast_out(nl.OctetString))[0] for r in server.pt_seen)
+    if seen != [i for i in range(2) if sent[i]]:
+        raise Violation("requests-on-the-wire", seen=seen, want=[i for i in range(2) if sent[i]], fates=fates, given_up=j,
+                        how=how, late=late)
+    # an idle, empty per-address queue object may stay behind after the application gave up (it is reused by the next
+    # request to that address and holds nothing of this one): what counts is a queue that still holds a block
+    cres = nl.residue(client)
+    cres.pop("iocb_queues", None)
+    held = [str(a) for a, q in client.queue_by_address.items() if q.active_iocb or q.ioQueue.queue]
+    if cres or held or nl.residue(server) or not w.idle():
+        raise Violation("residue", client=cres, held=held, server=nl.residue(server), given_up=j, how=how)
+    d.reach()
+
+
+_c04_instances_4 = instances
+
+
+def instances(tier):
+    out = _c04_instances_4(tier)
+    out.append(Inst(iocb_abort, {}, budget=120 if tier == "quick" else 600))
+    return out
